@@ -4,6 +4,10 @@
    directives of our own. *)
 Require Extraction.
 Require Import ExtrOcamlBasic.
-From SF Require Import Base.Prelude Gotype.Lru.
+From SF Require Import Base.Prelude Core.Events Cbor.Spec Cbor.Enc Cbor.Parse Gotype.Lru.
 Extraction Language OCaml.
-Extraction "sfmodel.ml" lru_init lru_run spec_run.
+Extraction "sfmodel.ml"
+  lru_init lru_run spec_run
+  stream_tree parse_tree wf_tree value_of cv cvalue_eqb contract_ok expand adapter sink0 s_log btype_code
+  cbor_decode cbor_decode_all cbor_run cenc0 w_chunks
+  run_parse run_chunks dec_next cparser0.
